@@ -260,7 +260,7 @@ Section Loop.
   | TaskHangs.                         (* _flush_results_buffer spins *)
 
   (* execute: _run_search, then `finally: self._flush_results_buffer()` *)
-  Definition execute (ds : list D) (lines : list line) : task_result result :=
+  Definition execute (ds : list D) (lines : list line) : task_result :=
     let st := flush (run_search ds lines) in
     if t_div st then TaskHangs else TaskOk (t_coll st).
 
@@ -272,7 +272,7 @@ Section Loop.
      it left; line numbers count from the first line searched *)
   Definition run_file {G} (atf : G -> nat -> option Z * nat)
              (globals : list G) (restrictions : list Z) (ds : list D)
-             (file_lines : list line) : task_result result :=
+             (file_lines : list line) : task_result :=
     let ids := map (fun s => key (sl_def s)) (search_defs ds) in
     let '(_, pos, _) := apply_global atf globals restrictions ids in
     execute ds (skipn pos file_lines).
